@@ -118,7 +118,7 @@ claim("C15", "property-based testing: reference cost from the definition (indepe
       _TB + "; scipy's DOP853; for the stochastic cost bioscrape's own SSA on fresh models", "DESIGN.md section 4 C15")
 
 claim("C08", "property-based testing: generated call histories against a build-at-once reference (model-based, Hypothesis)",
-      "14k (quick) / 150k (thorough) call histories (incremental edits in random order incl. temporary values and "
+      "10k (quick) / 150k (thorough) call histories (incremental edits in random order incl. temporary values and "
       "unknown names, py_initialize, seeded/unseeded simulations in eight modes, interface construction, simulations "
       "through remembered and stale interfaces, re-seeding) are executed on a real Model next to an abstract definition; "
       "every seeded simulation and 2..4 final modes are compared with a model built at once by the constructor "
